@@ -17,6 +17,11 @@ TRANSPARENT_CALLS = (
 )
 
 
+# value-preserving (checked) conversion helpers of the repository: callee -> index of the value argument
+TRANSPARENT_ARG = {"llir::fit_field": 2, "core::convert::TryFrom::try_from": 0, "core::convert::TryInto::try_into": 0,
+                   "core::result::Result::<T, E>::map_err": 0, "core::result::Result::<T, E>::ok": 0}
+
+
 class Defs:
     """definition sites of bare locals in one MIR body"""
 
@@ -71,6 +76,8 @@ class Defs:
             out.add(("call", cg, bi))
             if through_calls and (cg in TRANSPARENT_CALLS or c in TRANSPARENT_CALLS) and t["a"]:
                 out |= self._op_sources(t["a"][0], depth, seen, through_calls)
+            elif through_calls and cg in TRANSPARENT_ARG and len(t["a"]) > TRANSPARENT_ARG[cg]:
+                out |= self._op_sources(t["a"][TRANSPARENT_ARG[cg]], depth, seen, through_calls)
         if not found:
             if 1 <= local <= f.mir["argc"]:
                 out.add(("param", local))
